@@ -3,5 +3,7 @@ package harness
 
 import (
 	_ "verif/sim/props/c02"
+	_ "verif/sim/props/c03"
 	_ "verif/sim/props/c19"
+	_ "verif/sim/props/c20"
 )
